@@ -281,6 +281,10 @@ def rule_top(prog, rows):
         if not arms_by_body and (len(names) == 1 or bk):
             # single-operator closure (or one closure specialised on the fn it captured, registered under the
             # plain and the compound literal): the whole body is the arm
+            if getattr(prog, '_handler_views', False) and len(names) == 1:
+                # (second reading: a helper that matches on the operator name was opened with the one literal this handler
+                # passes, and the match folded away — the cover question of the first reading is answered by the arm check)
+                obs.append(ok('TOP', key0, 'the handler is specialised to the single literal %s it is registered under' % names, clo.where()))
             toks = _tokens_in(prog, clo, clo.live_blocks, side)
             for nm in spec_names:
                 obs += _judge(spec, nm, toks, clo, 'TOP|arm|%s' % nm)
@@ -371,9 +375,13 @@ def rule_aggr(prog, rows):
         if not nxts:
             obs.append(bad('AGGR', key, '%s() does not iterate over its arguments with a forward iterator' % r['name'], clo.where(), body=clo.name))
             continue
-        okk, why = r_order._loop_exits_only_on_none(clo, nxts[0])
+        # the draw that drives the loop (a first item may be drawn before it to seed the running value:
+        # `let mut min = match rest.next() { Some(first) => first.decimal()?, None => return Err(..) }; for p in rest { .. }`)
+        in_loop = [c for c in nxts if any(c.bb in s_ for s_ in clo.sccs())]
+        drive = (in_loop or nxts)[0]
+        okk, why = r_order._loop_exits_only_on_none(clo, drive)
         # the iterator must be over the parameter vector itself
-        it = single_origin(trace_operand(clo, nxts[0].args[0], through_calls=THROUGH))
+        it = single_origin(trace_operand(clo, drive.args[0], through_calls=THROUGH))
         src_ok = False
         for _ in range(3):
             if it is not None and it.kind == 'callres' and it.data.callee in r_order.FORWARD_ITER_MAKERS:
@@ -388,6 +396,94 @@ def rule_aggr(prog, rows):
             obs.append(bad('AGGR', key, '%s() does not iterate directly over all of its arguments' % r['name'], clo.where(), body=clo.name))
         else:
             obs.append(bad('AGGR', key, '%s() can return Ok without looking at every argument (%s): later arguments of the wrong type are accepted' % (r['name'], why), clo.where(), body=clo.name))
+    return obs
+
+
+EMPTY_VALUE = {'AND': 1, 'OR': 0}
+
+
+def rule_aggr_empty(prog, rows):
+    """`AND[]` is true and `OR[]` is false: on the path where the loop over the items is left without having drawn one, the
+    boolean that is returned is the neutral element (the constant returned after the loop, or the initial value of the
+    loop-carried flag)"""
+    from analysis import defuse
+    from facts import op_local, op_const_int
+    obs = []
+    for r in rows:
+        if r['name'] not in EMPTY_VALUE or not r.get('closure') or r['closure'] not in prog.by_id:
+            continue
+        clo = _hbody(prog, r['closure'])
+        key = 'AGGR|empty|%s' % r['name']
+        want = EMPTY_VALUE[r['name']]
+        nxts = [c for c in clo.live_calls if r_order.FORWARD_NEXT_RE.match(c.rdef or '')]
+        in_loop = [c for c in nxts if any(c.bb in s_ for s_ in clo.sccs())]
+        if not in_loop and not getattr(clo, 'is_view', False):
+            # the loop sits in a helper (`fold_flags(items, stop_on)`): read the handler with its helpers opened
+            clo = prog.view(prog.by_id[r['closure']], keep=lambda g: prog._publicly_reachable(g) or g.impl_trait, tag='handler', max_depth=6)
+            nxts = [c for c in clo.live_calls if r_order.FORWARD_NEXT_RE.match(c.rdef or '')]
+            in_loop = [c for c in nxts if any(c.bb in s_ for s_ in clo.sccs())]
+        if not in_loop:
+            obs.append(assumed('AGGR', key, '%s: no loop over the items found in this shape: the value for an empty list is not decided' % r['name'], clo.where()))
+            continue
+        drive = in_loop[0]
+        scc = next(s_ for s_ in clo.sccs() if drive.bb in s_)
+        du = defuse(clo)
+        tb = None
+        for sb in sorted(clo.live_blocks):
+            t = clo.blocks[sb]['term']
+            if t['k'] != 'switch':
+                continue
+            dl = op_local(t['discr'])
+            defs = du.defs.get(dl, []) if dl is not None else []
+            if len(defs) == 1 and defs[0][2] == 'assign' and defs[0][3]['k'] == 'discr' and defs[0][3]['pl']['l'] == drive.dest['l'] and not defs[0][3]['pl']['p']:
+                listed = [v for v, _ in t['targets']]
+                hit = [x for v, x in t['targets'] if v == 0]
+                tb = hit[0] if hit else (t['otherwise'] if listed == [1] else None)
+        if tb is None:
+            obs.append(assumed('AGGR', key, '%s: cannot find the exhausted-iterator edge: not decided' % r['name'], clo.where()))
+            continue
+        region = clo.reachable_from(tb, avoid=set(scc))
+        vals = set()
+        unknown = False
+        for bb, i, pl, rv in clo.assigns():
+            if bb not in region or not (rv['k'] == 'agg' and rv.get('variant') == 'Ok' and pl['l'] in r_order._flows_to_return(clo)):
+                continue
+            op = rv['ops'][0]
+            # Value::from(flag) / Value::Bool(flag) / flag.into()
+            for _ in range(4):
+                o = single_origin(trace_operand(clo, op, through_calls=set()))
+                if o is not None and o.kind == 'callres' and o.data.args and ((o.data.callee or '') in ('std::convert::From::from', 'std::convert::Into::into') or (o.data.rdef or '').endswith('From<bool>>::from')):
+                    op = o.data.args[0]
+                    continue
+                if o is not None and o.kind == 'agg' and o.data[2].get('variant') == 'Bool' and o.data[2]['ops']:
+                    op = o.data[2]['ops'][0]
+                    continue
+                break
+            c = op_const_int(op)
+            if c is not None:
+                vals.add(c)
+                continue
+            l = op_local(op)
+            # follow whole moves back to the flag local
+            for _ in range(6):
+                ds = du.defs.get(l, []) if l is not None else []
+                if len(ds) == 1 and ds[0][2] == 'assign' and ds[0][3]['k'] == 'use' and ds[0][3]['op']['k'] in ('copy', 'move') and not ds[0][3]['op']['pl']['p']:
+                    l = ds[0][3]['op']['pl']['l']
+                else:
+                    break
+            ds = du.defs.get(l, []) if l is not None else []
+            pre = [d for d in ds if d[0] not in scc and d[2] == 'assign' and clo.dominates(d[0], drive.bb)]
+            cs = [op_const_int(d[3]['op']) if d[3]['k'] == 'use' else None for d in pre]
+            if len(pre) == 1 and cs[0] is not None:
+                vals.add(cs[0])
+            else:
+                unknown = True
+        if unknown or not vals:
+            obs.append(assumed('AGGR', key, '%s: the value returned for an empty list is not a readable constant here: not decided' % r['name'], clo.where()))
+        elif vals == {want}:
+            obs.append(ok('AGGR', key, '%s over an empty list yields %s (the neutral element)' % (r['name'], 'true' if want else 'false'), clo.where()))
+        else:
+            obs.append(bad('AGGR', key, '%s over an empty list yields %s instead of %s: the fold starts from the wrong neutral element' % (r['name'], sorted('true' if v else 'false' for v in vals), 'true' if want else 'false'), clo.where(), body=clo.name))
     return obs
 
 
@@ -556,7 +652,9 @@ def _hbody(prog, cid):
     fn-pointer arguments inlined"""
     b = prog.by_id[cid]
     if getattr(prog, '_handler_views', False):
-        return prog.view(b, keep=lambda g: g.is_pub or g.impl_trait, tag='handler')
+        # (handlers are small: open up to five levels — `extremum(params, |n, m| n < m)` -> `fold_numbers(.., |best, n| ..)`
+        # -> the step closure -> the captured comparison)
+        return prog.view(b, keep=lambda g: prog._publicly_reachable(g) or g.impl_trait, tag='handler', max_depth=6)
     return b
 
 
